@@ -281,7 +281,7 @@ def _alarm(signum, frame):
     raise _Timeout()
 
 
-def with_timeout(fn, seconds=10):
+def with_timeout(fn, seconds=30):
     old = signal.signal(signal.SIGALRM, _alarm)
     signal.alarm(seconds)
     try:
@@ -353,6 +353,10 @@ def compare_block(shared_blk, fresh_blk, cache=None, skip_equal_flat=False):
     if ("shared", fs) not in cache:
         cache[("shared", fs)] = solutions(shared_blk)
     ss, sf = cache[("shared", fs)], cache["fresh"]
+    if ("error", "timeout") in (ss[:2], sf[:2]):
+        # no answer within the time limit on one side: inconclusive (load-dependent), not a difference
+        out["timeout"] = True
+        return out
     if ss[0] != sf[0] or (ss[0] == "error" and ss != sf):
         out["solutions"] = {"shared": ss[:2] if ss[0] == "error" else "ok", "fresh": sf[:2] if sf[0] == "error" else "ok"}
         return out
@@ -669,6 +673,8 @@ def run(ctx, res):
                     stats["blocks:equal-flat-record-not-exhausted(quick tier)"] += 1
                 if d.get("capped"):
                     stats["blocks:solution-cap-reached"] += 1
+                if d.get("timeout"):
+                    stats["blocks:timeout-inconclusive"] += 1
                 if "flat" in d:
                     stats["blocks:flat-record-differs"] += 1
                 if "solutions" in d or "verdict" in d:
